@@ -313,7 +313,7 @@ Section Post.
     { cbn [released s_inuse s_inputs]. rewrite Hs1. split; [reflexivity|]. apply exact_view_lt. auto. }
     destruct (find_stop (concat (q_pend q ++ [piece_of t])) (q_stops q)).
     - destruct (truncate_stop (q_pend q ++ [piece_of t]) s0) as [pend' trunc].
-      match goal with |- context [if ?c <? 0 then _ else _] => destruct (c <? 0) eqn:Eneg; [exact I|set (tl := c) in *] end.
+      match goal with |- context [Z.to_nat (Z.max 0 ?c)] => set (tl := Z.max 0 c) in * end.
       cbn [released with_inputs s_inuse s_inputs]. split; [reflexivity|].
       unfold view_lt. rewrite Hv, filter_lt_enumerate0 by apply zlen_nonneg. f_equal.
       rewrite zlen_firstn.
